@@ -179,7 +179,7 @@ class ASTSchemaPrinter:
         if not field_or_enum_value.deprecated:
             return ""
         elif (
-            not field_or_enum_value.deprecation_reason
+            field_or_enum_value.deprecation_reason is None
             or field_or_enum_value.deprecation_reason == DEFAULT_DEPRECATION
         ):
             return " @deprecated"
